@@ -82,7 +82,13 @@ func (x *G) attrs(tag string) [][2]string {
 		case 2:
 			add("title", x.pick("attrval", attrValues))
 		case 3:
-			add("data-x", x.pick("attrval", attrValues))
+			if x.chance("rnddata", 2) {
+				// any name: the minifier knows a fixed set of attributes, all others are kept with their values
+				x.Feats["random-data-attribute"]++
+				add("data-"+rapid.StringMatching("[a-z]{2,9}").Draw(x.T, "rnddataname"), x.pick("attrval", attrValues))
+			} else {
+				add("data-x", x.pick("attrval", attrValues))
+			}
 		case 4:
 			add(x.pick("boolattr", []string{"hidden", "disabled", "checked", "selected", "readonly", "required", "multiple", "open", "async", "defer"}), x.pick("boolval", []string{"", "x", "disabled", "true"}))
 		case 5:
@@ -120,6 +126,7 @@ func (x *G) attrs(tag string) [][2]string {
 		if x.chance("ivalue", 2) {
 			add("value", x.pick("ivalue", []string{"", "on", "v", " x ", "ON"}))
 		}
+		x.formOverrides(add)
 		if x.chance("ipattern", 6) {
 			x.Feats["pattern-attribute"]++
 			add("pattern", x.pick("ipatternv", []string{"a  b", " [a-z]+ ", "\\d{3}", "x|y  "}))
@@ -140,6 +147,7 @@ func (x *G) attrs(tag string) [][2]string {
 		if x.chance("btype", 2) {
 			add("type", x.pick("btype", []string{"submit", "button", "SUBMIT", "reset"}))
 		}
+		x.formOverrides(add)
 	case "script":
 		if x.chance("stype", 2) {
 			add("type", x.pick("stype", []string{"text/javascript", "application/javascript", "Text/JavaScript", "module", "application/ld+json", "text/template", "text/javascript; charset=utf-8"}))
@@ -177,6 +185,23 @@ func (x *G) attrs(tag string) [][2]string {
 
 var phrasingTags = []string{"span", "b", "i", "em", "strong", "a", "code", "small", "sub", "abbr", "u", "label", "q", "s", "mark"}
 
+// formOverrides: the attributes of a submit button that override those of its form. They have no default of their own:
+// formmethod=get on a button of a form with method=post is not the same as no formmethod
+func (x *G) formOverrides(add func(k, v string)) {
+	if !x.chance("formoverride", 4) {
+		return
+	}
+	x.Feats["form-override-attribute"]++
+	switch x.n("formoverridekind", 2) {
+	case 0:
+		add("formmethod", x.pick("formmethod", []string{"get", "GET", "post", "dialog"}))
+	case 1:
+		add("formenctype", x.pick("formenctype", []string{"application/x-www-form-urlencoded", "multipart/form-data", "text/plain"}))
+	default:
+		add("formaction", x.pick("formaction", []string{"/a", "", " /b "}))
+	}
+}
+
 func (x *G) phrasing(depth int, inA bool) []*Node {
 	var out []*Node
 	n := 1 + x.n("nphr", 4)
@@ -190,6 +215,11 @@ func (x *G) phrasing(depth int, inA bool) []*Node {
 			tag := x.pick("ptag", phrasingTags)
 			if tag == "a" && inA || tag == "label" && inA {
 				tag = "span"
+			}
+			if x.chance("rndcustom", 6) {
+				// a custom element of any name: an unknown element, inline, its tags are never omitted
+				x.Feats["random-custom-element"]++
+				tag = rapid.StringMatching("[a-z]{1,3}-[a-z]{2,8}").Draw(x.T, "rndcustomname")
 			}
 			el := &Node{Tag: tag, Attrs: x.attrs(tag)}
 			if !x.chance("emptyinline", 8) {
